@@ -25,6 +25,8 @@ LEVEL = 'model_checking'
 MEMO = ('ast', 'ext', 's2a')
 XUSES = ['assign_ref', 'create_ref', 'load_set', 'iter_set', 'load_attr', 'lazy_attr', 'set_add', 'contains', 'delete',
          'set_attr']
+# the same uses made from a db_session that has not touched the database yet (no session cache in local.db2cache)
+FRESH = ['load_set_fresh', 'iter_set_fresh', 'load_attr_fresh', 'lazy_attr_fresh', 'delete_fresh']
 # uses of a foreign object that only read values that are already in memory (obj.name of a loaded object, the
 # primary key of an object passed as a query parameter) touch neither the database nor a session: not required to raise.
 
@@ -33,6 +35,8 @@ XUSES = ['assign_ref', 'create_ref', 'load_set', 'iter_set', 'load_attr', 'lazy_
 def _use(db, kind, pub):
     T, K = db.T, db.K
     o, seed, kid = pub['obj'], pub['seed'], pub['kid']
+    if kind in FRESH:
+        kind = kind[:-len('_fresh')]
     if kind == 'assign_ref':
         K[2].t = o                      # Attribute.validate
     elif kind == 'create_ref':
@@ -107,8 +111,9 @@ class Env(object):
                 out = outs[tid] = []
                 try:
                     with db_session:
-                        pub[tid] = {'obj': db.T[1], 'seed': db.K[1].t, 'kid': db.K[2]}
-                        open_sessions.add(tid)
+                        if not (prog[0]['op'] == 'xuse' and prog[0]['q'] in FRESH):
+                            pub[tid] = {'obj': db.T[1], 'seed': db.K[1].t, 'kid': db.K[2]}
+                            open_sessions.add(tid)
                         try:
                             for op in prog:
                                 if op['op'] == 'exec':
@@ -238,7 +243,7 @@ def index(behs):
 def run(ctx):
     quick = ctx.tier == 'quick'
     sc = ctx.scratch
-    xuses = cm.strset(XUSES)
+    xuses = cm.strset(XUSES + FRESH)
     base = dict(NThreads=2, Fams='{"Slice2"}' if quick else '{"Slice3"}', XUses=xuses, WarmSet='<-WarmSlice9', MinLen=1, MaxLen=1)
 
     # (i) the required behaviour holds on the repaired design; the same run enumerates all its behaviours
@@ -281,7 +286,7 @@ def run(ctx):
         # larger models: seeded random behaviours (TLC -simulate) of the as-is design
         sims = []
         if quick:
-            sims.append(('3thr-memo', dict(base, NThreads=3, MemoSteps='TRUE', Fams='{"Slice2"}', XUses='{"load_set", "set_add"}'),
+            sims.append(('3thr-memo', dict(base, NThreads=3, MemoSteps='TRUE', Fams='{"Slice2"}', XUses='{"load_set", "set_add", "load_set_fresh"}'),
                          (300, 60)))
         else:
             sims.append(('memo-2thr', dict(base, MemoSteps='TRUE', Fams='{"MixT"}', XUses='{}', WarmSet='<-WarmAny'), (3000, 60)))
